@@ -100,6 +100,24 @@ Theorem C13_pattern_removal :
 Proof. exact param_remove. Qed.
 Print Assumptions C13_pattern_removal.
 
+(** "$@" -- a double-quoted part made of $@ expansions only -- without positional parameters
+    generates no field at all: the part leaves the fields untouched, and the word "$@" alone
+    expands to zero fields. *)
+Theorem C13_quoted_at_without_parameters :
+  forall users f e v rest mode first fs,
+    only_at v = true -> (length (args e) <= 1)%nat ->
+    expand_parts users (S f) e (WQuote 34%N v :: rest) mode first fs = expand_parts users f e rest mode false fs.
+Proof. exact quoted_at_no_params. Qed.
+Print Assumptions C13_quoted_at_without_parameters.
+
+Theorem C13_quoted_at_alone_is_no_field :
+  forall users glob e mode,
+    (length (args e) <= 1)%nat ->
+    mbit mode mLiteral = false -> mbit mode mPattern = false -> mbit mode mArith = false -> mbit mode mQuote = false ->
+    expand_top users glob e [WQuote 34%N [WParam s_at [] None]] mode = Ok (e, []).
+Proof. exact quoted_at_alone_is_no_field. Qed.
+Print Assumptions C13_quoted_at_alone_is_no_field.
+
 (** Not proved: the operators of the table applied to $@ and $* themselves and the pattern-removal
     operators on them (one removal per positional parameter); decided by the correspondence with
-    the implementation and the table oracle.  F18 ("$@" with no parameters) is a known finding. *)
+    the implementation and the table oracle. *)
